@@ -1044,12 +1044,12 @@ def run(tier):
     ck = c.Check(PROP, tier)
     quick = tier == "quick"
     ck.rule = ("S->I: TLC enumerates the main files of <= 3 chunks over the chunk alphabets of TopReadMC (cond: 66 chunk kinds = define, "
-               "moleculetype, table line, 3 includes incl. a sub-directory file including ../a.itp and a file with its own conditional "
+               "moleculetype, table line, 3 includes incl. a sub-directory file including ../a.itp and its sibling a.itp (a name that also exists beside the main file) and a file with its own conditional "
                "#error, 60 #ifdef/#ifndef[/#else] forms; quick: all <= 2-chunk mains and the 3-chunk mains starting with a define, a "
                "moleculetype or the sub-directory include; thorough: all), sec (17 kinds: tables, overriding, valued defines, nested "
                "includes), mols (12 [molecules] entries, counts 0-3, repeated names), split ([molecules] spread over files); every case is "
                "rendered in 3 textual variants and read through absolute and relative paths; a case is distinct by its chunk sequence. "
-               "I->S: seeded random include trees (2-6 files in 5 directories, ./ and ../ paths, missing files, 3 macros) and real .top "
+               "I->S: seeded random include trees (2-9 files in 5 directories with clashing file names, ./ and ../ paths, missing files, 3 macros, molecule types re-read through several files; edges of types and instances compared) and real .top "
                "files; a record is distinct by its input.")
     ck.assumptions = [
         "domain (DESIGN 4.8): conditionals balanced, not nested inside one file, only #include/#error inside a conditional; #define outside conditionals",
